@@ -15,21 +15,21 @@ TEXT = {
  "C05": ("exploration", "Generated ambiguous grammars with random precedence/associativity/explicit rule precedence; the value of the real parse must equal the value of the tree obtained by the documented resolution on the reference table.",
          "same as C01; R/R grammars excluded (README: undefined)", "rapidcheck PBT, differential vs reference resolution (term precedences taken from term objects built with the public constructors, rule precedences from rule[n]); generated DSL programs with >= / >>= after [n]", "5/C05"),
  "C06": ("exploration", "Coverage-guided fuzzing of whole parsers and of the regex matcher on arbitrary bytes through four buffer kinds with sanitizers, a bounds monitor inside the library's fixed vectors and a checked user iterator; the differential across buffer kinds and a linear-progress bound are checked inside the target.",
-         "libFuzzer mutations reach the interesting inputs; termination only as absence of reproducible time-outs", "libFuzzer (coverage-guided, six targets, one with a structure-aware decode reaching stack depths > 4096 and inputs > 64 KiB from 20-byte inputs and an independent evaluator as value oracle) + ASan/UBSan + checked-iterator buffer + differential across buffer kinds", "5/C06"),
+         "libFuzzer mutations reach the interesting inputs; termination only as absence of reproducible time-outs", "libFuzzer (coverage-guided, seven targets incl. the real cstring_buffer<N> with nested error recovery, one with a structure-aware decode reaching stack depths > 4096 and inputs > 64 KiB from 20-byte inputs and an independent evaluator as value oracle) + ASan/UBSan + checked-iterator buffer + differential across buffer kinds", "5/C06"),
  "C07": ("exploration", "Generated programs (public DSL only) compiled with both available compilers; per input a SFINAE probe observes whether the compile-time parse is a constant expression and its value, and six run-time parses (3 buffer kinds x parser built at compile time / at run time) must agree with it and with the reference. Sample sizes are bounded by compile time.",
-         "generators and reference of C01/C05/C08; g++ 12.2 and clang++ 14.0.6 only", "generated-program differential (constexpr vs run time x buffers x compilers) against the reference model", "5/C07"),
+         "generators and reference of C01/C05/C08; g++ 12.2 and clang++ 14.0.6 only", "generated-program differential (constexpr vs run time x buffers x compilers, verbose on/off at compile time) against the reference model; ~590-state grammar through three buffer kinds vs a python LR(1) reference", "5/C07"),
  "C08": ("exploration", "Generated grammars with error rules and inputs with injected errors; outcome, kept values and error messages must equal the README recovery algorithm run on the reference table.",
-         "same as C01; recovery model written from README's five bullets", "rapidcheck PBT, reference recovery model", "5/C08"),
+         "same as C01; recovery model written from README's five bullets", "rapidcheck PBT, reference recovery model; generated DSL program with a ~590-state grammar (error rules in 32 contexts) against a python LR(1) construction driven by README's recovery loop", "5/C08"),
  "C09": ("exploration", "Generated conflict-free grammars and inputs (also lexically wrong); exactly one message of the right kind, position and term/byte, nothing on success, failure iff not in the language.",
          "same as C01; messages compared on (kind, line, column, name/byte)", "rapidcheck PBT, reference LR(1)+Earley prefix viability; lexer-engine job for multi-character terms; generated DSL programs with named/typed terms", "5/C09"),
  "C10": ("exploration", "Source points delivered to functors and printed in messages are compared with an independent line/column model over inputs mixing all whitespace bytes and option combinations.",
-         "same as C01; single-character terms in this engine (multi-line lexemes are covered by the lexer engine when registered)", "rapidcheck PBT, reference position model", "5/C10"),
+         "same as C01; single-character terms in this engine (multi-line lexemes are covered by the lexer engine when registered)", "rapidcheck PBT, reference position model; lexer-engine job; generated DSL programs (multi-line string terms, owning term values, 64 KiB lexemes) with a digest over all source points read by functors", "5/C10"),
  "C11": ("exploration", "The diagnostic text is parsed and compared with the reference LR(1) automaton (states by item set, actions, conflicts, rule numbers), with the real table through the hook, and executed by a text-driven interpreter against the real parser.",
          "same as C01; documented text format", "rapidcheck PBT, diagnostic-text parser + reference automaton + text-driven table interpreter", "5/C11"),
  "C03": ("exploration", "Generated patterns in the documented syntax; for each, the automaton built by the real builder is compared with a reference DFA over all byte strings (exact per pattern), witnesses confirmed on the real matcher. A known construction defect (F5) is scoped by a behavioural model so that any other deviation is still reported.",
-         "reference regex semantics; real pattern parser/builder driven at run time through public API", "rapidcheck PBT, automata equivalence vs reference DFA + derivative matcher, three-way bug-model scope", "5/C03"),
+         "reference regex semantics; real pattern parser/builder driven at run time through public API", "rapidcheck PBT, automata equivalence vs reference DFA + derivative matcher, three-way bug-model scope; pumped members of 64 KiB+ through the real matcher", "5/C03"),
  "C12": ("exploration", "Four sub-checks with the cvector bounds monitor on: (a) predicted regex automaton size vs states used, (l) lexer automaton vs sum of term budgets, (b) custom table limits around the real state/situation counts (too small => loud rejection, sufficient => same behaviour), (c) fixed stacks of cstring_buffer<N> for N <= 20 vs the string_buffer run.",
-         "builder capacity 1024 in the harness; bounds monitor hook", "rapidcheck PBT, invariant (used <= predicted) + bounds monitor + UBSan array bounds; six limit levels incl. per-state cap below state cap", "5/C12"),
+         "builder capacity 1024 in the harness; bounds monitor hook", "rapidcheck PBT, invariant (used <= predicted) + bounds monitor + UBSan array bounds; six limit levels incl. per-state cap below state cap; deep/long sentence job; ~590-state DSL grammar with custom limits must construct", "5/C12"),
  "C17": ("exploration", "(a) category-mutated malformed patterns must be refused by both construction paths; scanning any string stays inside its NUL-terminated block (ASan). (b) generated programs whose grammar references an undeclared symbol: run-time construction must throw and the constexpr probe must report a non-constant expression, with g++ and clang++.",
          "reference classification VALID/MALFORMED/UNSPECIFIED", "rapidcheck PBT, mutation-based negative testing (category mutations, truncation) + ASan; generated programs with undeclared symbols (constexpr probe + run-time construction)", "5/C17"),
  "C18": ("exploration", "Generated grammars over custom terms driven by a scripted custom lexer with generated (index, length) behaviour; the lexer's call log, the functor log and the outcome are compared with a reference tokeniser + LR run.",
@@ -37,11 +37,11 @@ TEXT = {
  "C19": ("exploration", "The finite space of (functor, arity 1..9, position or (container,element) pair, argument category) is enumerated completely in every case, with random tagged contents; identity of forwarded objects and copy/move counters are the oracle.",
          "direct calls of the public functors (as the parser's reductors call them: rvalues) plus lvalue categories", "bounded-exhaustive enumeration of the position space driven by rapidcheck contents; an instantiation that stops compiling is a violation (control engine)", "5/C19"),
  "C13": ("exploration", "Generated grammars mixing '>=' and '>>=' functors; each input is parsed under four context categories and without context; identity, constness, value category, order and visibility of mutations are checked against the reference reduction order.",
-         "same as C01; functors log the address and type of the context they receive", "rapidcheck PBT, reference reduction order + identity/constness invariants over call sites", "5/C13"),
+         "same as C01; functors log the address and type of the context they receive", "rapidcheck PBT, reference reduction order + identity/constness invariants over call sites; generated DSL programs (>>= / >= mixes, skip-typed context parameter, copy/move-counting context, all context_parse overloads)", "5/C13"),
  "C14": ("exploration", "Generated grammars over instrumented value types (copyable and move-only builds); a global registry of live objects and per-value ids decide leaks, double destruction, duplication, reuse after move and copies, on success, failure and recovery paths. A library change that makes move-only nonterminal values stop compiling is reported as a violation (the copyable control build must still compile).",
          "same as C01; term payload copy inside term_value<T> is attributed to that class", "rapidcheck PBT, instrumented value type with live-object registry (history invariant); list parsers built with the library's emplace_back/push_back/_eN helpers over instrumented copyable and move-only elements", "5/C14"),
  "C15": ("exploration", "Generated call histories on one parser object, sequential and from 2..8 threads; results compared with isolated runs, byte image of the object compared after calls, and a ThreadSanitizer build as race oracle. Schedules are sampled, not enumerated.",
-         "same as C01; OS scheduler; TSan happens-before race detection", "rapidcheck stateful histories (isolated-result oracle, histories reporting to one reused stream object) + byte-image invariant + ThreadSanitizer", "5/C15"),
+         "same as C01; OS scheduler; TSan happens-before race detection", "rapidcheck stateful histories (isolated-result oracle, histories reporting to one reused stream object) + byte-image invariant + ThreadSanitizer; const/non-const functor overloads counted; lexer-level and custom-lexer (stateful lexer object) histories", "5/C15"),
  "C16": ("exploration", "Every input is parsed under all verbosity/stream combinations; results must agree and the verbose trace is replayed against the real table and the functor log of the same run.",
          "same as C01", "rapidcheck PBT, metamorphic (options) + trace replay invariant; real-lexer job (recognised terms == reference tokenisation, nullable terms included)", "5/C16"),
 }
